@@ -125,8 +125,8 @@ ImplProd(p, env) ==
          THEN {IF CtxBounds THEN "MOFParseError" ELSE "IndexError"}
          ELSE {"MOFParseError"}
     [] p.d = "syntax" ->
-         IF p.k = "garbage" \/ p.v \in PragmaSyn THEN {"MOFParseError"}
-         ELSE AnyMof
+         IF p.v \in PragmaSyn THEN {"MOFParseError"}
+         ELSE AnyMof      \* a mutated production may still be (other) valid MOF
     [] p.d = "value" ->
          IF p.k = "namespace"
          THEN IF p.v \in NsNoMatch
